@@ -651,7 +651,28 @@ def check_negative_slice(ctx, fa):
         ctx.check(rule, not unknown, c, "negative Slice bounds `%s` by `%s`, which is not -start/-stop (%s): more (or fewer) values than "
                   "the documented |index| are kept alive" % (A.short(c, 50), A.src(ml), ", ".join(unknown)),
                   detail="deque bounded by %s" % "/".join(sorted(bounds)), construct="deque-bound:%s" % A.src_with(ml, ctor))
-    ctx.instances_floor(rule, len(deques), 4, "deque constructions in the negative Slice")
+    ctx.instances_floor(rule, len(deques), 3, "deque constructions in the negative Slice")
+    # a result that the slice's own numbers decide (stop <= start: nothing to yield) is produced without touching the flow
+    pnames = set(ctor)        # locals bound from self._start / self._stop / self._step
+    n_empty = 0
+    reported = False
+    for p in P.paths_of(fn):
+        if p.end != "return" or p.yields() or any(e[0] in ("exc", "partial", "iter", "loop0", "backedge") for e in p.ev):
+            continue        # an exception or a loop over data on the way: the data had a say
+        lits = list(p.literals())
+        if not lits or not all(A.names_loaded(t) <= pnames for t, _ in lits):
+            continue
+        n_empty += 1
+        pulls = [n for _, n in p.exprs() for x in A.walk_local(n) if isinstance(x, ast.Name) and x.id == "flow"]
+        if pulls and not reported:
+            reported = True
+            ctx.violation(rule, pulls[0], "negative Slice returns without a result on the path [%s], which only its own start/stop/step "
+                          "decide, yet pulls from the flow on the way (`%s`): an empty slice such as Slice(-2, -3) exhausts its input -- "
+                          "it never returns after an infinite Source -- although its zero results need none of it"
+                          % (p.describe(5), A.short(pulls[0], 50)), construct="empty-slice-pulls", path=p)
+    ctx.instances_floor(rule + "/empty", n_empty, 1, "paths of the negative Slice that return nothing by its parameters alone")
+    if not reported:
+        ctx.ok(rule, fn, "negative Slice: %d parameter-decided empty exits are reached without touching the flow" % n_empty)
     uses = fa.uses(fn, ["flow"])
     loops = pull_loops(uses)
     n_bad = 0
@@ -894,6 +915,7 @@ def check(ctx):
 
 VARIANTS = [
     M("flowtoiter-list", "lena/core/functions.py", "        return iter(flow)", "        return iter(list(flow))", ["C02-a"]),
+    M("negslice-collects-before-empty-exit", "lena/flow/iterators.py", "                if stop is None:\n                    d = deque(flow, maxlen=-start)\n                    while True:", "                if stop is None or stop < 0:\n                    d = deque(flow, maxlen=-start)\n                if stop is None:\n                    while True:", ["C02-d"]),
     M("negslice-exit-on-len", "lena/flow/iterators.py", "                        if ind >= stop - start:", "                        if len(d) >= stop - start:", ["C02-d"]),
     M("callrun-list", "lena/core/adapters.py", "        for val in flow:\n            yield self._el(val)\n",
       "        return [self._el(val) for val in flow]\n", ["C02-a"]),
